@@ -5,9 +5,10 @@ from vf import gen, schema
 
 PROP = 'C20'
 REJECTIONS = ['wrong-type', 'outside-enum', 'non-numeric', 'wrong-ref-class', 'bad-origin-ref', 'bad-cast-dtype',
-              'duplicate-dataset', 'unknown-keyword', 'name-not-str', 'bad-assign', 'frame-no-channels', 'units-on-unitless']
+              'duplicate-dataset', 'unknown-keyword', 'name-not-str', 'bad-assign', 'frame-no-channels', 'units-on-unitless',
+              'dataset-name-not-text']
 FAILED_WRITES = ['missing-data', 'inconsistent-dimension', 'flush-error', 'hc-breach-at-write', 'unequal-rows',
-                 'index-not-1d', 'hc-nonuniform-index', 'incomplete-then-completed']
+                 'index-not-1d', 'hc-nonuniform-index', 'incomplete-then-completed', 'frameless-channel-axis-mismatch', 'index-2d-then-channel-removed']
 META = {
     'level': 'fault_enumeration',
     'rule': ('one evaluation = one history pair: the specification with rejected add_*/assignment calls (or a failed write) '
@@ -127,6 +128,11 @@ def bad_op(r, t, rk, ctx_refs, existing_ops):
             return None
         op['dataset_name'] = prev[0].get('dataset_name') or prev[0]['name']
         # a rejected channel must not keep its data either
+    elif rk == 'dataset-name-not-text':
+        # the name under which the channel's data are kept is not a text (a list: not even hashable)
+        if t != 'channel':
+            return None
+        op['dataset_name'] = r.choice([['x'], ['a', 'b'], {'k': 1}])
     elif rk == 'units-on-unitless':
         # units given (through a dict / AttrSetup) to an attribute that cannot carry units: refused with a RuntimeError
         f = first(('text', 'ident', 'status'))
@@ -521,6 +527,39 @@ def run_case(case):
         b = S.build(sp)
         bad = np.arange(2 * n, dtype=np.float64).reshape(n, 2) * 100.0 + 5000.0
         first = S.do_write(sp, b, path, harness.scratch_dir(), data={'FW-INDEX': bad})
+        second = S.do_write(sp, b, path, harness.scratch_dir())
+    elif cause == 'frameless-channel-axis-mismatch':
+        # a channel in no frame whose DIMENSION does not fit its axis: refused while the CHANNEL set is written (after the
+        # ELEMENT-LIMIT default has been filled in); then the dimension is corrected
+        k_ = r.choice([2, 3, 4])
+        bad_dim = r.choice([k_ + 1, k_ + 3, 1])
+        sp['ops'].append({'op': 'axis', 'name': 'FW-AXIS', 'attrs': {'coordinates': [float(j) for j in range(k_)]}, 'lf': 0})
+        ai = len(sp['ops']) - 1
+        lon = gen.channel_op('FW-LONER', '<f4', (3, k_), fill={'kind': 'pos', 'tag': 8}, lf=0)
+        lon['attrs'].update({'dimension': [bad_dim], 'axis': [{'$ref': ai}]})
+        sp['ops'].append(lon)
+        ci = len(sp['ops']) - 1
+        fresh_spec = copy.deepcopy(sp)
+        fresh_spec['ops'][ci]['attrs']['dimension'] = [k_]
+        b = S.build(sp)
+        first = S.do_write(sp, b, path, harness.scratch_dir())
+        b.handles[ci].dimension.value = [k_]
+        second = S.do_write(sp, b, path, harness.scratch_dir())
+    elif cause == 'index-2d-then-channel-removed':
+        # an indexed frame whose first channel is 2-D: refused while the frame is set up from the data (its channels have
+        # been set up by then); the user takes the channel out of the frame
+        n = r.choice([4, 9])
+        sp['ops'].append(gen.channel_op('FW-IMAGE', r.choice(['<i2', '<f8']), (n, 2), fill={'kind': 'pos', 'tag': 6}, lf=0))
+        sp['ops'].append(gen.channel_op('FW-CURVE', '<f4', (n,), fill={'kind': 'lin', 'start': 1.0, 'step': 1.0}, lf=0))
+        ci = len(sp['ops']) - 2
+        sp['ops'].append(dict(gen.frame_op('FW-FRAME', [ci, ci + 1], index_type=r.choice(['BOREHOLE-DEPTH', 'TIME'])), lf=0))
+        fi = len(sp['ops']) - 1
+        fresh_spec = copy.deepcopy(sp)
+        fresh_spec['ops'].append({'op': 'assign', 'target': fi, 'target_op': 'frame', 'kw': 'channels', 'part': 'value',
+                                  'value': {'$tuple': [{'$ref': ci + 1}]}})
+        b = S.build(sp)
+        first = S.do_write(sp, b, path, harness.scratch_dir())
+        b.handles[fi].channels.value = [b.handles[ci + 1]]
         second = S.do_write(sp, b, path, harness.scratch_dir())
     elif cause == 'hc-nonuniform-index':
         # high-compatibility mode refuses a non-uniform index; the same rows without the irregular tail are fine
